@@ -261,9 +261,11 @@ PROPS = {
                     "replies stolen; the peer closes with calls outstanding. After every step get_completed of every call must equal the model, a notify set while pending must have run exactly once "
                     "iff completed and never for a cancelled call, replies that pair with no pending call must reach ordinary dispatch (a filter records them) and paired ones must not, stolen "
                     "replies must carry the call's serial and come from the peer or be a local NoReply/Disconnected/Timeout error, serials are non-zero and distinct."),
-        level_note="Single thread: the clause 'from several threads' is not attacked by this check (no multi-thread stress built; see DESIGN.md section 5); timeouts run under the virtual clock (hooks H1/H2), dbus_pending_call_block is only invoked when it can terminate.",
+        level_note="c17_pending is single-threaded under the virtual clock (hooks H1/H2; dbus_pending_call_block is only invoked when it can terminate). The clause 'from several threads' is only sampled: c17_threads shares one connection between 2-4 threads in real time (calls completed by blocking, by notify + dispatch loop, by send_with_reply_and_block, or cancelled; the peer thread answers now / out of order / twice / with an error / never) and checks exactly-once completion with the right token, distinct non-zero serials, no notification of cancelled calls, a 20 s hang watchdog and sanitizer silence; it does not control the interleaving, so schedule-specific defects can escape.",
         rule=("case = schedule decoded from fuzzer input. Non-trivial = >=2 outstanding calls and (out-of-order or duplicate replies, or time passing / cancel while replies are written but unread, or peer close with calls outstanding); distinct = FNV-1a of the log."),
-        phases=[P(kind="fuzz", bin="c17_pending", runs_quick=100000, runs_thorough=20000000, workers_quick=8, workers_thorough=16, max_len=512, rss=4000, timeout=60)],
+        phases=[P(kind="fuzz", bin="c17_pending", runs_quick=100000, runs_thorough=20000000, workers_quick=8, workers_thorough=16, max_len=512, rss=4000, timeout=60),
+                # threads clause: sampling stress of one connection shared by 2-4 threads (real time; see level_note)
+                P(kind="fuzz", bin="c17_threads", race=True, runs_quick=4200, runs_thorough=400000, workers_quick=14, workers_thorough=16, max_len=256, rss=4000, timeout=60, detect_leaks=0)],
         floor_quick=800, floor_thorough=50000,
     ),
     "C19": P(
